@@ -358,10 +358,16 @@ theorem coerce_spellings :
     coerce "false".toList = .bool false ∧ coerce "False".toList = .bool false := by decide
 
 theorem coerce_other (s : List Char) (h1 : s ≠ "true".toList) (h2 : s ≠ "True".toList)
-    (h3 : s ≠ "false".toList) (h4 : s ≠ "False".toList) : coerce s = .str s := by
+    (h3 : s ≠ "false".toList) (h4 : s ≠ "False".toList) (h5 : s = [] ∨ s.all isAsciiDigit = false) :
+    coerce s = .str s := by
   unfold coerce
   rw [if_neg (by rintro (h | h); exact h1 h; exact h2 h),
-      if_neg (by rintro (h | h); exact h3 h; exact h4 h)]
+      if_neg (by rintro (h | h); exact h3 h; exact h4 h),
+      if_neg (by rintro ⟨a, b⟩; rcases h5 with e | e; exact a e; simp [e] at b)]
+
+/-- a string of digits becomes the integer YAML would read -/
+theorem coerce_digits : coerce "100".toList = .int 100 ∧ coerce "0".toList = .int 0 ∧
+    coerce "1e3".toList = .str "1e3".toList ∧ coerce [] = .str [] := by decide
 
 theorem splitEq_join (n v : List Char) (h : '=' ∉ n) : splitEq (n ++ '=' :: v) = some (n, v) := by
   induction n with
